@@ -4,6 +4,9 @@
 #![allow(clippy::all)]
 
 mod gen;
+mod hwwalk;
+mod refmodel;
+mod simphys;
 mod props;
 mod util;
 
